@@ -22,7 +22,7 @@ import (
 func init() {
 	Registry["C07"] = &Check{
 		Scenarios: c07Scenarios,
-		Rule: "schedules: W in {2,3} writer threads, 1-2 messages each with sizes from {200 B, 2 KiB, 5 KiB} (below/above the 1 KiB pooled serialisation buffer and the 4 KiB bufio buffer) written to one diam.Conn through Message.WriteTo, Conn.Write with caller-serialised bytes and Message.WriteToStreamWithRetry (rotating per writer and message) over an in-memory transport whose Write stalls between two pieces; every schedule up to the preemption bound (W=2: bound 2 quick / unbounded thorough; W=3: bound 2 / 3), happens-before state caching. faults: every sequence of write outcomes (bytes accepted k in {0,1,n/2,n-1,n} x {temporary, permanent, nil}) of length <= retries+1 for retries 0..3 against writeRetry (io.Writer) and writeStreamRetry (MultistreamWriter), and through a diam.Conn over a faulting transport. close-during-write: one writer (200 / 4096 / 5120 bytes) whose transport write stalls half way and an application goroutine closing the connection at every instant (preemption bound 3): the transport never receives more than a prefix of the message. sizes: every message size 32..8300 (multiples of four) through WriteTo / Conn.Write / WriteToWithRetry on a fault-free connection: the transport holds exactly the message as soon as the write has returned.",
+		Rule: "schedules: W in {2,3} writer threads, 1-2 messages each with sizes from {200 B, 2 KiB, 5 KiB} (below/above the 1 KiB pooled serialisation buffer and the 4 KiB bufio buffer) written to one diam.Conn through Message.WriteTo, Conn.Write with caller-serialised bytes and Message.WriteToStreamWithRetry (rotating per writer and message) over an in-memory transport whose Write stalls between two pieces; every schedule up to the preemption bound (W=2: bound 2 quick / unbounded thorough; W=3: bound 2 / 3), happens-before state caching. faults: every sequence of write outcomes (bytes accepted k in {0,1,n/2,n-1,n} x {temporary, permanent, nil}) of length <= retries+1 for retries 0..3 against writeRetry (io.Writer) and writeStreamRetry (MultistreamWriter), and through a diam.Conn over a faulting transport. stale-connection: a write to a connection that has ended, after a new connection was created, never reaches the new connection's transport. close-during-write: one writer (200 / 4096 / 5120 bytes) whose transport write stalls half way and an application goroutine closing the connection at every instant (preemption bound 3): the transport never receives more than a prefix of the message. sizes: every message size 32..8300 (multiples of four) through WriteTo / Conn.Write / WriteToWithRetry on a fault-free connection: the transport holds exactly the message as soon as the write has returned.",
 		Assume: []string{"data-race freedom between visible operations (audited separately with -race)", "the source rewriter and shims preserve Go semantics (shim unit tests)"},
 		QuickBudget: 100, ThoroughBudget: 1500,
 	}
@@ -74,6 +74,7 @@ func c07Scenarios(tier string) []*Scenario {
 	out = append(out, &Scenario{Name: "faults/writeStreamRetry", Seq: func(r *SeqResult) { c07Faults(r, true) }})
 	out = append(out, &Scenario{Name: "faults/through-conn", Seq: c07ConnFaults})
 	out = append(out, &Scenario{Name: "sizes/single-writer", Seq: c07Sizes})
+	out = append(out, &Scenario{Name: "stale-connection-write", Seq: c07StaleConn})
 	for _, size := range []int{200, 4096, 5120} {
 		out = append(out, c07CloseDuringWrite(size, 3))
 	}
@@ -541,4 +542,68 @@ func c07CloseDuringWrite(size int, bound int) *Scenario {
 	}
 	return &Scenario{Name: fmt.Sprintf("close-during-write/%d-bytes", size), Body: body, Check: check, Bound: bound, Horizon: 5 * time.Second,
 		Outcome: func(s *vs.Sched) string { return fmt.Sprint(len(c07cw.conn.Out), c07cw.err != nil) }}
+}
+
+// c07StaleConn: a connection whose peer has gone away is followed by a new connection; a goroutine
+// that still holds the first connection's diam.Conn writes to it. That write fails - and under no
+// circumstances does the message show up on the new connection's transport.
+func c07StaleConn(r *SeqResult) {
+	for _, size := range []int{200, 4096, 5120} {
+		for _, how := range []string{"peer-eof", "local-close"} {
+			size, how := size, how
+			var viol string
+			s := vs.Run(nil, false, 0, false, func() {
+				a := vnet.NewConn("A")
+				a.Pieces = 1
+				ca, err := diam.NewConn(a, "peerA", diam.NewServeMux(), dict.Default)
+				if err != nil {
+					viol = err.Error()
+					return
+				}
+				if how == "peer-eof" {
+					a.PeerEOF()
+				} else {
+					ca.Close()
+				}
+				vs.BlockObj("wait-A-gone", a, func() bool { return a.Closed })
+				// let the serve goroutine of A finish its teardown before the next connection is made
+				for i := 0; i < 8; i++ {
+					vs.Yield("settle")
+				}
+				b := vnet.NewConn("B")
+				b.Pieces = 1
+				cb, err := diam.NewConn(b, "peerB", diam.NewServeMux(), dict.Default)
+				if err != nil {
+					viol = err.Error()
+					return
+				}
+				m := c07msg(0, 0, size)
+				_, werr := m.WriteTo(ca)
+				if len(b.Out) != 0 {
+					viol = fmt.Sprintf("a %d-byte message written to the finished connection A (write returned %v) put %d bytes on the transport of the NEW connection B", size, werr, len(b.Out))
+					return
+				}
+				if werr == nil && len(a.Out) == 0 {
+					viol = fmt.Sprintf("a %d-byte message written to the finished connection A was reported as written but reached no transport", size)
+					return
+				}
+				// B itself works
+				mb := c07msg(1, 0, 200)
+				wantB, _ := mb.Serialize()
+				if _, err := mb.WriteTo(cb); err != nil || !bytes.Equal(b.Out, wantB) {
+					viol = fmt.Sprintf("the new connection B does not deliver its own message whole (err %v, %d bytes on its transport, message has %d)", err, len(b.Out), len(wantB))
+				}
+			})
+			s.Teardown()
+			r.Cases++
+			r.Distinct++
+			if r.Sample == "" {
+				r.Sample = "connection A ends (peer EOF / local Close), connection B is created, a holder of A's Conn writes to it"
+			}
+			if viol != "" && r.Violation == "" {
+				r.Violation = viol + " (A ended by " + how + ")"
+				r.Case = map[string]interface{}{"size": size, "how": how}
+			}
+		}
+	}
 }
